@@ -168,9 +168,13 @@ func (ri *rrInfo) poolChange(in ssa.Instruction) bool {
 }
 
 func runC01(p *Prog, r *Report) {
+	// R10: the weights the rotation runs on are the configured ones: a weight set through the rebalancer survives the next reset (shared with C02.R11)
+	checkConfiguredWeightFollows(p, r, "C01.R10")
 	// R9: one record per server and only valid weights in the pool: identity compares URL fields exactly, a refused option changes nothing (shared with C02.R4 / C02.R9)
 	r.Borrow(p, runC02, map[string]string{"C02.R4": "C01.R9", "C02.R9": "C01.R9"}, nil)
-	r.Borrow(p, runC02, map[string]string{"C02.R5": "C01.R9"}, func(o Ob) bool { return strings.Contains(o.Construct, "never edited in place") })
+	r.Borrow(p, runC02, map[string]string{"C02.R5": "C01.R9"}, func(o Ob) bool {
+		return strings.Contains(o.Construct, "never edited in place") || strings.Contains(o.Construct, "stored into a new record")
+	})
 	// R8: nothing restarts the rotation while the pool is unchanged: the rebalancer re-applies weights only after changing one (shared with C10.R3)
 	r.Borrow(p, runC10, map[string]string{"C10.R3": "C01.R8"}, func(o Ob) bool { return strings.Contains(o.Construct, "applies weights only after changing") })
 	ri := resolveRR(p, r, "C01.R0")
@@ -552,6 +556,7 @@ func negLeading(c LinCmp) bool {
 func mutantsC01() []Mutant {
 	f := "roundrobin/rr.go"
 	return []Mutant{
+		{Name: "rb-remembered-weight-guarded", File: "roundrobin/rebalancer.go", Old: "\t\ts.origWeight = weight\n\t\treturn nil\n", New: "\t\tif weight > 0 {\n\t\t\ts.origWeight = weight\n\t\t}\n\t\treturn nil\n", Expect: "C01.R10"},
 		{Name: "record-url-edited-after-copy", File: "roundrobin/rr.go", Old: "\tsrv := &server{url: utils.CopyURL(u)}\n", New: "\tsrv := &server{url: utils.CopyURL(u)}\n\tsrv.url.Fragment = \"\"\n", Expect: "C01.R9"},
 		{Name: "level-compare-strict", File: f, Old: "\t\tif srv.weight >= r.currentWeight {", New: "\t\tif srv.weight > r.currentWeight {", Expect: "C01.R7"},
 		{Name: "level-lowered-by-one", File: f, Old: "\t\t\tr.currentWeight -= gcd\n", New: "\t\t\tr.currentWeight--\n\t\t\t_ = gcd\n", Expect: "C01.R7"},
